@@ -6,14 +6,14 @@ open SteelVerif.C07
 #print axioms arms_total_unary
 #print axioms panic_sites_classified
 #print axioms reachable_sites_named
+#print axioms failed_run_leaves_clean
 #print axioms failed_run_leaves_clean_partial
 #print axioms handler_run_resumes_clean
 #print axioms run_never_panics
 #print axioms execute_clean
 #print axioms failed_forms_keep_completed
 #print axioms history_stays_clean
-#print axioms counter_bad_handler
-#print axioms not_FailedRunLeavesClean
+#print axioms regression_bad_handler
 #print axioms failed_build_is_noop_partial
 #print axioms listOps_spec
 #print axioms counter_macro_survives
